@@ -574,11 +574,24 @@ class Workspace(AbstractContextManager):
         else:
             self._root = self.create_entity(RootGroup, save_on_creation=False)
 
-            for entity_type in ["group", "object"]:
-                uuids = self._io_call(H5Reader.fetch_uuids, entity_type, mode="r")
+            uuids = {
+                entity_type: self._io_call(H5Reader.fetch_uuids, entity_type, mode="r")
+                for entity_type in ["group", "object"]
+            }
+            # entities listed in another entity's child containers are recovered
+            # through their parent, not attached to the rebuilt root
+            nested = set()
+            for entity_type, uids in uuids.items():
+                for uid in uids:
+                    nested.update(
+                        self._io_call(
+                            H5Reader.fetch_children, uid, entity_type, mode="r"
+                        )
+                    )
 
-                for uid in uuids:
-                    if isinstance(self.get_entity(uid)[0], Entity):
+            for entity_type in ["group", "object"]:
+                for uid in uuids[entity_type]:
+                    if uid in nested or isinstance(self.get_entity(uid)[0], Entity):
                         continue
 
                     recovered_object = self.load_entity(uid, entity_type)
